@@ -36,12 +36,14 @@ package bufcheck
 // after every applicable source (paths, this rule's ignore_only, package stability, comment ignores) was consulted.
 //@ func ignoreFileLocation(config, ruleID, fileLocation) (r, err)
 //@   property C06
-//@   modifies heap, ghost.commentsConsulted, ghost.versionConsulted
+//@   modifies ghost.commentsConsulted, ghost.versionConsulted
 //@   requires !ghost.commentsConsulted && !ghost.versionConsulted
 //@   requires validRel(fileLocation.FileDescriptor().ProtoreflectFileDescriptor().Path()) && (forall k string :: k in config.IgnoreRootPaths ==> validRel(k)) && (forall id string, k string :: id in config.IgnoreRuleIDToRootPaths && k in config.IgnoreRuleIDToRootPaths[id] ==> validRel(k))
 //@   ensures imports-never-reported: old(config.ExcludeImports) && fileLocation.FileDescriptor().IsImport() ==> r && err == nil
 //@   ensures ignore-paths: (exists k string :: k in old(config.IgnoreRootPaths) && ancOrSelf(k, fileLocation.FileDescriptor().ProtoreflectFileDescriptor().Path())) ==> r && err == nil
 //@   ensures ignore-only-this-rule: ruleID in old(config.IgnoreRuleIDToRootPaths) && (exists k string :: k in old(config.IgnoreRuleIDToRootPaths)[ruleID] && ancOrSelf(k, fileLocation.FileDescriptor().ProtoreflectFileDescriptor().Path())) ==> r && err == nil
+//@   ensures error-never-suppresses: err != nil ==> !r
+//@   ensures errors-only-from-comment-lookup: err != nil ==> old(config.AllowCommentIgnores) && old(config.CommentIgnorePrefix) != ""
 //@   ensures negative-needs-version-check: err == nil && !r && old(config.IgnoreUnstablePackages) ==> ghost.versionConsulted
 //@   ensures negative-needs-comment-check: err == nil && !r && old(config.AllowCommentIgnores) && old(config.CommentIgnorePrefix) != "" && len(fileLocation.SourcePath()) > 0 ==> ghost.commentsConsulted
 //@   ensures only-documented-reasons: r && !old(config.IgnoreUnstablePackages) && !(old(config.AllowCommentIgnores) && old(config.CommentIgnorePrefix) != "") ==> ((old(config.ExcludeImports) && fileLocation.FileDescriptor().IsImport()) || (exists k string :: k in old(config.IgnoreRootPaths) && ancOrSelf(k, fileLocation.FileDescriptor().ProtoreflectFileDescriptor().Path())) || (ruleID in old(config.IgnoreRuleIDToRootPaths) && (exists k string :: k in old(config.IgnoreRuleIDToRootPaths)[ruleID] && ancOrSelf(k, fileLocation.FileDescriptor().ProtoreflectFileDescriptor().Path()))))
@@ -52,10 +54,23 @@ package bufcheck
 // ignoreFileLocation above; the element-wise "kept iff the callback accepts" is slicesext.FilterError's verified contract.)
 //@ func filterAnnotations(config, annotations) (r, err)
 //@   property C06
-//@   modifies heap
+//@   modifies ghost.commentsConsulted, ghost.versionConsulted
+//@   requires config != nil && (forall i int :: 0 <= i && i < len(annotations) ==> annotations[i] != nil && ra_annPathsValid(annotations[i].Annotation))
+//@   requires (forall k string :: k in config.IgnoreRootPaths ==> validRel(k)) && (forall id string, k string :: id in config.IgnoreRuleIDToRootPaths && k in config.IgnoreRuleIDToRootPaths[id] ==> validRel(k))
+//@   closure 0 requires annotation != nil && ra_annPathsValid(annotation.Annotation)
+//@   closure 0 requires config != nil && (forall k string :: k in config.IgnoreRootPaths ==> validRel(k)) && (forall id string, k string :: id in config.IgnoreRuleIDToRootPaths && k in config.IgnoreRuleIDToRootPaths[id] ==> validRel(k))
+//@   closure 0 ensures err == nil && ra_annSuppressed(config.ExcludeImports, dom(config.IgnoreRootPaths), annotation.Annotation.RuleID() in config.IgnoreRuleIDToRootPaths, dom(config.IgnoreRuleIDToRootPaths[annotation.Annotation.RuleID()]), annotation.Annotation) ==> !r
+//@   closure 0 ensures err == nil && !r && !config.IgnoreUnstablePackages && !(config.AllowCommentIgnores && config.CommentIgnorePrefix != "") ==> ra_annSuppressed(config.ExcludeImports, dom(config.IgnoreRootPaths), annotation.Annotation.RuleID() in config.IgnoreRuleIDToRootPaths, dom(config.IgnoreRuleIDToRootPaths[annotation.Annotation.RuleID()]), annotation.Annotation)
+//@   closure 0 ensures err != nil ==> config.AllowCommentIgnores && config.CommentIgnorePrefix != ""
 //@   ensures never-adds: err == nil ==> len(r) <= len(annotations) && (forall a int :: 0 <= a && a < len(r) ==> (exists i int :: 0 <= i && i < len(annotations) && annotations[i] == r[a]))
 //@   ensures order-kept: err == nil ==> (forall a int, b int :: 0 <= a && a < b && b < len(r) ==> (exists i int, j int :: 0 <= i && i < j && j < len(annotations) && annotations[i] == r[a] && annotations[j] == r[b]))
 //@   ensures error-yields-nothing: err != nil ==> len(r) == 0
+// (r4a) which ones are dropped: every annotation suppressed by a configured reason (excluded import, ignore path,
+// ignore_only path of its rule - at either of its locations) is dropped; and when neither comment ignores nor
+// unstable-package ignores are configured NOTHING ELSE is dropped: every other annotation is kept.
+//@   ensures suppressed-are-dropped: err == nil ==> (forall a int :: 0 <= a && a < len(r) ==> !ra_annSuppressed(config.ExcludeImports, dom(config.IgnoreRootPaths), r[a].Annotation.RuleID() in config.IgnoreRuleIDToRootPaths, dom(config.IgnoreRuleIDToRootPaths[r[a].Annotation.RuleID()]), r[a].Annotation))
+//@   ensures only-suppressed-are-dropped: err == nil && !config.IgnoreUnstablePackages && !(config.AllowCommentIgnores && config.CommentIgnorePrefix != "") ==> (forall i int :: 0 <= i && i < len(annotations) && !ra_annSuppressed(config.ExcludeImports, dom(config.IgnoreRootPaths), annotations[i].Annotation.RuleID() in config.IgnoreRuleIDToRootPaths, dom(config.IgnoreRuleIDToRootPaths[annotations[i].Annotation.RuleID()]), annotations[i].Annotation) ==> (exists a int :: 0 <= a && a < len(r) && r[a] == annotations[i]))
+//@   ensures errors-only-from-comment-lookup: !(config.AllowCommentIgnores && config.CommentIgnorePrefix != "") ==> err == nil
 //@   canary ensures len(r) == len(annotations)
 //
 // Rule / category expansion: the result is exactly the union of the expansions; an unknown ID is an error.
@@ -200,6 +215,9 @@ package bufcheck
 //@   requires replacements-not-deprecated: forall i int, j int, q int :: 0 <= i && i < len(allRules) && 0 <= j && j < len(allRules) && allRules[i].Deprecated() && 0 <= q && q < len(allRules[i].ReplacementIDs()) && allRules[j].ID() == allRules[i].ReplacementIDs()[q] ==> !allRules[j].Deprecated()
 // the bookkeeping loop for deprecation warnings writes through aliased inner maps (outside the fragment);
 // it is abstracted by havoc of what it assigns: it feeds only the warning maps, not the rule selection
+// (r4a) the ignore / ignore_only paths of a rules configuration are valid relative paths other than the root: this is the
+// precondition under which ignoreFileLocation / filterAnnotations test path-wise containment
+//@   ensures ignore-paths-valid: err == nil ==> r != nil && (forall k string :: k in r.IgnoreRootPaths ==> validRel(k) && k != ".") && (forall id string, k string :: id in r.IgnoreRuleIDToRootPaths && k in r.IgnoreRuleIDToRootPaths[id] ==> validRel(k) && k != ".")
 //@   skip "for _, ids := range [][]string{"
 //@   loop 5 invariant resultRuleIDToRule != nil && (forall x string :: (x in resultRuleIDToRule) <==> (exists j int :: 0 <= j && j < $i && useRuleIDs[j] == x))
 //@   loop 6 invariant resultRuleIDToRule != nil && (forall x string :: (x in resultRuleIDToRule) <==> (inSlice(useRuleIDs, x) && !(exists j int :: 0 <= j && j < $i && exceptRuleIDs[j] == x)))
